@@ -617,6 +617,15 @@ fn gen_comments(rng: &mut Rng, nrec: usize) -> String {
 }
 
 /// a fault for a file of `nrec` lines with `ncol` columns; `numeric` = columns holding coordinates, `phase` = phase column
+/// a generated fault that the case parser itself would refuse (e.g. deleting the first column turns the line into a
+/// comment) is replaced by "none": the generator must never emit a line that `exec` rejects as BADCASE
+fn safe_fault(written: Option<&[u8]>, fault: String) -> String {
+    match written {
+        Some(w) if apply_fault(w, &fault).is_err() => "none".into(),
+        _ => fault,
+    }
+}
+
 fn gen_fault(rng: &mut Rng, nrec: usize, ncol: usize, numeric: &[usize], phase: Option<usize>, wlen: usize) -> String {
     if nrec == 0 {
         return if rng.chance(1, 2) { "none".into() } else { "cut:0".into() };
@@ -684,11 +693,12 @@ fn gen_bed(rng: &mut Rng, every_cut: bool) -> String {
                 .collect(),
         })
         .collect();
-    let wlen = bed_write(&recs).map(|w| w.len()).unwrap_or(0);
+    let written = bed_write(&recs).ok();
+    let wlen = written.as_ref().map(|w| w.len()).unwrap_or(0);
     let fault = if every_cut {
         format!("cut:{}", (0..=wlen).map(|o| o.to_string()).collect::<Vec<_>>().join(":"))
     } else {
-        gen_fault(rng, n, 3 + k, &[1, 2], None, wlen)
+        safe_fault(written.as_deref(), gen_fault(rng, n, 3 + k, &[1, 2], None, wlen))
     };
     let recs_s: Vec<String> = recs.iter().map(fmt_bed).collect();
     format!("bed {} {} {}", join(&recs_s, "/"), gen_comments(rng, n), fault)
@@ -759,11 +769,12 @@ fn gen_gff(rng: &mut Rng, every_cut: bool) -> String {
             }
         })
         .collect();
-    let wlen = gff_write_real(&gff_build(&recs), t).map(|w| w.len()).unwrap_or(0);
+    let written = gff_write_real(&gff_build(&recs), t).ok();
+    let wlen = written.as_ref().map(|w| w.len()).unwrap_or(0);
     let fault = if every_cut {
         format!("cut:{}", (0..=wlen).map(|o| o.to_string()).collect::<Vec<_>>().join(":"))
     } else {
-        gen_fault(rng, n, 9, &[3, 4], Some(7), wlen)
+        safe_fault(written.as_deref(), gen_fault(rng, n, 9, &[3, 4], Some(7), wlen))
     };
     let recs_s: Vec<String> = recs.iter().map(fmt_gff).collect();
     let style = *rng.pick(&["plain", "plain", "spaced", "quoted"]);
